@@ -602,6 +602,9 @@ func baseHooks() map[string]hookFn {
 	h["net.JoinHostPort"] = func(i *interpreter, fr *frame, fn *ssa.Function, args []value) value {
 		return net.JoinHostPort(goString(args[0], "JoinHostPort"), goString(args[1], "JoinHostPort"))
 	}
+	h["path/filepath.IsAbs"] = func(i *interpreter, fr *frame, fn *ssa.Function, args []value) value {
+		return filepath.IsAbs(goString(args[0], "filepath.IsAbs"))
+	}
 	h["path/filepath.Join"] = func(i *interpreter, fr *frame, fn *ssa.Function, args []value) value {
 		var ss []string
 		for _, e := range args[0].([]value) {
